@@ -154,7 +154,7 @@ pub fn run(run: &mut PropRun, ctx: &Ctx) {
         .into();
     run.assumptions.push("bodies that brush's parser rejects are outside the property (counted as skipped)".into());
     crate::inproc::run_inproc("C14", ctx, run);
-    let cfg = GenCfg { depth: ctx.tier.pick(3, 4), max_list: 3, nfuncs: 2, raw: RAW.iter().map(|s| s.to_string()).collect(), raw_weight: 6, pipes: true, substs: true, evals: false, jumps: true, exits: false, probes: true };
+    let cfg = GenCfg { depth: ctx.tier.pick(3, 4), max_list: 3, nfuncs: 2, raw: RAW.iter().map(|s| s.to_string()).collect(), raw_weight: 6, pipes: true, substs: true, evals: false, jumps: true, exits: false, probes: true, no_while: false };
     let n = ctx.tier.pick(400, 8000);
     run.add(explore(&Reimport, prog_strategy(&cfg), n, ctx));
 }
